@@ -389,8 +389,12 @@ def checkBuild (params lines : List String) : CaseResult := Id.run do
         let rg ← parseInt? rg; let pg ← parseInt? pg; let l ← parseBool? l
         pure (({ sx, sy, cg, rg, pg, scale := s } : Cfg), l)
       | _ => none) | return { bad := ["c19 params"] }
-  let some stored := storedNow | return { bad := ["fact addActivityStored unknown: the type switch of AddActivity was not found"] }
+  -- (when the type switch of AddActivity cannot be read the obligation on that fact is broken already; the scripts are then
+  -- judged against the builder that stores EVERY activity kind — what the property demands — so that a failing input is
+  -- still found)
+  let stored := storedNow.getD (fun _ => true)
   let mut r : CaseResult := {}
+  if storedNow.isNone then r := { r with infos := ["fact addActivityStored unreadable: judged against a builder that stores every kind"] }
   -- the grid on which the integer model is exact: even unit values, scale a multiple of 8
   if cfg.scale % 8 != 0 || [cfg.sx, cfg.sy, cfg.cg, cfg.rg, cfg.pg].any (· % 2 != 0) then
     return { bad := ["configuration off the exact grid"] }
